@@ -214,6 +214,19 @@ def run(F, R, tier, cfg):
         R.ob("LOCK-registry", "update_state: write_lock.lock() dominates state.store()", lock_ok and bool(stores), True)
         if not (lock_ok and stores):
             R.violation("LOCK-registry", upd + "/lock-dominates-store", "state.store is not dominated by write_lock.lock() in update_state", F.loc(upd))
+        # the whole read-modify-write is inside the critical section: the snapshot (state.load()) and the modifier call
+        # are taken after the lock — a snapshot taken before it can be stale when published (lost update: a superseded
+        # identity is re-instated)
+        loads = ub.calls_to(lambda n: n.endswith("::load") and "ArcSwap" in n)
+        mods = [c for c in ub.calls if c.decl.endswith("FnOnce::call_once") or c.indirect]
+        lks = [lk for lk in locks if "field:write_lock" in tokens(ub.origin(lk.args[0]))]
+        rmw_ok = bool(lks) and bool(loads) and all(any(ub.dominates(lk.bb, x.bb) and lk.bb != x.bb for lk in lks) for x in list(loads) + mods)
+        R.ob("LOCK-registry", "update_state: write_lock.lock() dominates the snapshot load and the modifier call (%d load, %d modifier call)" % (len(loads), len(mods)),
+             rmw_ok, True, {"rule": "LOCK-registry", "fn": upd, "loads": len(loads), "modifier_calls": len(mods), "holds": rmw_ok})
+        if not rmw_ok:
+            R.violation("LOCK-registry", upd + "/lock-dominates-load", "update_state takes its snapshot of the registry state (or runs the modifier) before "
+                        "acquiring write_lock: two concurrent updates can both start from the same snapshot and the later store overwrites the "
+                        "earlier one — a superseded or removed identity is authorised again", F.loc(upd))
         others = [(p, c) for (p, c) in T.call_sites(F, lambda n: n.endswith("::store") and "ArcSwap" in n, crates=["snap_control"])
                   if p.startswith(reg) and p != upd]
         for (p, c) in others:
